@@ -385,3 +385,46 @@ def ev_size(name, node, n):
     wp.guard = 'true'
     v = wp.ev(node)
     return v.t
+
+
+# ------------------------------------------------------------------------------------------------ callee contracts used by the walks
+def helper_vcs(info):
+    """nano::square / cube / quartic (include/nano/core/numeric.h) and nano::is_pos_target (include/nano/loss/class.h) are mapped to
+    x*x, x*x*x, x*x*x*x and target > 0 at their call sites: the same clauses are proved here from their own bodies."""
+    vcs = []
+    tu = BENCH + 'powell.cpp'
+    hdr = astload.REPO + '/include/nano/core/numeric.h'
+    for nm, k in (('square', 2), ('cube', 3), ('quartic', 4)):
+        docs = astload.dump(tu, 'nano::' + nm)
+        cands = {}
+        for f in astload.find_definitions(docs, nm):
+            if astload.template_args(f)[:1] == ['double']:
+                cands[tuple(astload.param_types(f))] = f
+        if len(cands) != 1:
+            raise astload.ExtractionError(f'nano::{nm}<double>: {len(cands)} instantiations in {tu}')
+        fn = list(cands.values())[0]
+        info.append(fninfo(f'nano::{nm}', f'nano::{nm}<double>', hdr, fn))
+        wp = EigWP(f'nano::{nm}')
+        (key, p), = wp.bind_params(fn)
+        wp.env[key] = wp.const('|value|', 'Real', 'double')
+        rets = []
+        wp.post = lambda w, rv: (rets.append(rv), [])[1]
+        wp.run(fn, hdr)
+        if len(rets) != 1:
+            raise Unsupported(f'nano::{nm}: {len(rets)} return paths')
+        gen = Gen(wp.decls, tag=f'nano::{nm}')
+        vcs.append(gen.vc(f'nano::{nm}/returns value^{k} (the contract assumed at its call sites)', [], ('=', sx.parse(rets[0].t), ('*',) + ('|value|',) * k),
+                          source={'file': hdr, 'line': fn.get('loc', {}).get('line')}))
+    tu2, hdr2 = 'src/loss.cpp', astload.REPO + '/include/nano/loss/class.h'
+    fn = astload.find_definition(tu2, 'nano::is_pos_target', 'is_pos_target')
+    info.append(fninfo('nano::is_pos_target', 'nano::is_pos_target', hdr2, fn))
+    wp = EigWP('nano::is_pos_target')
+    (key, p), = wp.bind_params(fn)
+    wp.env[key] = wp.const('|target|', 'Real', 'double')
+    rets = []
+    wp.post = lambda w, rv: (rets.append(rv), [])[1]
+    wp.run(fn, hdr2)
+    gen = Gen(wp.decls, tag='nano::is_pos_target')
+    vcs.append(gen.vc('nano::is_pos_target/returns target > 0 (the contract assumed at its call sites)', [], ('=', sx.parse(rets[0].t), ('>', '|target|', '0.0')),
+                      source={'file': hdr2, 'line': fn.get('loc', {}).get('line')}))
+    return vcs
